@@ -12,6 +12,9 @@ type PartSpec struct {
 	FsPoints      bool
 	ModRequires   []string
 	ImportMap     map[string]string
+	RenameMain    map[string]string
+	HTTPSeams     bool
+	MainPkg       string // build target (default ./cmd/verif_<harness>)
 	Race          bool
 	Shards        int
 	ProcsPerShard int
@@ -158,4 +161,23 @@ func init() {
 		"the instant t = expiry is treated as don't-care by the lifetime model",
 		"scripted randomness replaces crypto/rand so that join-code collisions actually occur",
 	}, Parts: []*PartSpec{c14store}})
+}
+
+var wsMap = map[string]string{
+	"github.com/quic-go/quic-go":   "github.com/sheerbytes/sheerbytes/internal/verif/venv/vquic",
+	"github.com/gorilla/websocket": "github.com/sheerbytes/sheerbytes/internal/verif/venv/vws",
+}
+
+func boxPart(name, mode string, shards int) *PartSpec {
+	return &PartSpec{Name: name, Harness: "box", Instrument: true, Shards: shards, GoMaxProcs: 1, ImportMap: wsMap, HTTPSeams: true,
+		RenameMain: map[string]string{"/cmd/thruserv": "verifServerMain"}, MainPkg: "./cmd/thruserv", Args: "mode=" + mode, Timeout: 45 * time.Minute}
+}
+
+var boxAssumptions = []string{
+	"the real thruserv main(), handleWebSocket, hub and store run in one process under the controlled scheduler; net/http server and client calls are routed in-process (vhttp) and gorilla/websocket is replaced by the vws model (ordered delivery per direction, close => 1006 at the peer after queued frames, read limit, deadlines on the virtual clock)",
+	"every event is run to quiescence before the next one except in the concurrent-pair parts, which explore all interleavings within delay bound 2",
+}
+
+func init() {
+	register("C10", &CheckSpec{Level: "model_checking", Assumptions: boxAssumptions, Parts: []*PartSpec{boxPart("routing", "c10", 16)}})
 }
